@@ -17,7 +17,7 @@ BUDGET = {
     "C13": ((8, 96), (32, 160)),
     "C15": ((8, 96), (32, 160)),
     "C05": ((2, 8), (16, 24)),
-    "C19": ((2, 3), (16, 8)),
+    "C19": ((2, 3), (8, 6)),
     "C04": ((2, 8), (16, 24)),
     "C14": ((8, 48), (16, 96)),
 }
